@@ -373,6 +373,57 @@ def _n6(ctx, fm, nm):
     ctx.floor(R, 12)
 
 
+def _whole_table_of(v, full):
+    """expression is the whole input table (all rows, all columns), possibly re-wrapped"""
+    if isinstance(v, ast.Name):
+        return v.id in full
+    if isinstance(v, ast.Attribute) and v.attr in ("values",):
+        return _whole_table_of(v.value, full)
+    if isinstance(v, ast.Call):
+        d = (dotted(v.func) or "").split(".")[-1]
+        if d in ("asarray", "ascontiguousarray", "array", "asanyarray") and v.args:
+            return _whole_table_of(v.args[0], full)
+        if d in ("to_numpy", "copy") and isinstance(v.func, ast.Attribute):
+            return _whole_table_of(v.func.value, full)
+    return False
+
+
+def _n8_full_rows(ctx, fm, dups, R):
+    """two rows are duplicates only when equal in EVERY input column, 'diff' columns included: the table
+    handed to the duplicate test is the full input, indexed by rows only"""
+    full = {fm.params()[0]}
+    binds = {}
+    for s in fm.stmts():
+        for t, v, _ in assigned_targets(s):
+            if isinstance(t, ast.Name):
+                binds.setdefault(t.id, []).append(v)
+    grew = True
+    while grew:
+        grew = False
+        for n, vs in binds.items():
+            if n not in full and all(_whole_table_of(v, full) for v in vs):
+                full.add(n)
+                grew = True
+
+    def rows_of_full(e, depth=0):
+        if _whole_table_of(e, full):
+            return True
+        if isinstance(e, ast.Subscript) and not isinstance(e.slice, ast.Tuple):
+            return rows_of_full(e.value, depth)
+        if isinstance(e, ast.Name) and depth < 4 and len(binds.get(e.id, ())) == 1:
+            return rows_of_full(binds[e.id][0], depth + 1)
+        if isinstance(e, ast.Call) and (dotted(e.func) or "").split(".")[-1] == "DataFrame" and e.args:
+            return rows_of_full(e.args[0], depth)
+        return False
+
+    for c in dups:
+        recv = c.func.value if isinstance(c.func, ast.Attribute) else None
+        ctx.check(recv is not None and rows_of_full(recv), R, fm, c, f"the duplicate test runs over `{norm(recv) if recv is not None else '?'}`, which is not the full input table "
+                  "(all columns, 'diff' columns included): rows that differ only in a 'diff' column are merged", "duplicates are rows equal in every input column")
+    for c in fm.calls("_dedup_mask"):
+        ctx.check(bool(c.args) and rows_of_full(c.args[0]), R, fm, c, f"_dedup_mask is applied to `{norm(c.args[0]) if c.args else '?'}`, not to the full input table", "_dedup_mask over the full input table")
+
+
 def _n8(ctx, fm):
     R = "C11-N8"
     ctx.doc(R, "deduplication defaults on, keeps the first duplicate, and no call site switches it off")
@@ -386,6 +437,7 @@ def _n8(ctx, fm):
         k = kwarg(c, "keep")
         ctx.check(k is None or (isinstance(k, ast.Constant) and k.value == "first"), R, fm, c, f"duplicates are resolved with keep={norm(k) if k else None}: not the first of the duplicated rows",
                   "keep='first'")
+    _n8_full_rows(ctx, fm, dups, R)
     dm = ctx.func(FP, "_dedup_mask", R)
     ok = any(kwarg(c, "return_index") is not None for c in dm.calls("unique"))
     ctx.check(ok, R, dm, dm.node.body[-1], "_dedup_mask does not keep the first occurrence (np.unique(..., return_index=True))", "np.unique(return_index=True) keeps first occurrences")
@@ -397,7 +449,7 @@ def _n8(ctx, fm):
             third = c.args[2] if len(c.args) >= 3 else None
             off = any(isinstance(x, ast.Constant) and x.value is False for x in (k, third) if x is not None)
             ctx.check(not off, R, fi, c, "call site passes distinct=False: duplicate rows are returned", "dedup left on")
-    ctx.floor(R, 6)
+    ctx.floor(R, 9)
 
 
 def check(ctx):
@@ -435,6 +487,8 @@ VARIANTS = [
          '            to_pareto.append(rounded if goal == "min" else -rounded)\n            new_goals.append(goal)')]},
     {"kind": "F", "name": "max-sign-positive", "rule": "C11-N6", "edits": [
         (FP, '        elif g == "max":\n            simple_opt_cols.append((i, -1.0))', '        elif g == "max":\n            simple_opt_cols.append((i, 1.0))')]},
+    {"kind": "F", "name": "dedup-over-objective-columns-only", "rule": "C11-N8", "edits": [(FP, "            pareto_rows = data[pareto_idx]", "            pareto_rows = eff_data[pareto_idx]")]},
+    {"kind": "S", "name": "dedup-table-inline", "edits": [(FP, "            pareto_rows = data[pareto_idx]\n            dup_mask = pd.DataFrame(pareto_rows)", "            dup_mask = pd.DataFrame(np.asarray(df_values)[pareto_idx])")]},
     {"kind": "F", "name": "keep-last", "rule": "C11-N8", "edits": [
         (FP, 'duplicated(keep="first")', 'duplicated(keep="last")')]},
     {"kind": "F", "name": "unknown-goal-ignored", "rule": "C11-N6", "edits": [
